@@ -151,6 +151,36 @@ fn enumerate_c01(cli: &Cli, r: &Report, prop: &str) {
             }
         }
     }
+    // two input counters of different kinds, one of them replaced by (or replacing) a constant counter of
+    // its kind: the other one still sees every input. Every ordered pair of kinds, both orders of the calls.
+    if prop == "C01" {
+        let bit = |k: usize| -> u8 { [1u8, 4, 8, 2][k] };
+        for (entry, ishape, oshape) in [(2usize, 3usize, 3usize), (3, 2, 0), (4, 3, 2), (5, 1, 1)] {
+            for a in 0..4usize {
+                for b in 0..4usize {
+                    if a == b {
+                        continue;
+                    }
+                    for after in [true, false] {
+                        for (n, s, test) in [(2u32, Some(2u32), false), (1, None, true)] {
+                            let mut c = LoopCase::basic(entry, ishape, oshape);
+                            c.input_counters = bit(a) | bit(b);
+                            c.bencher_counters = vec![(b, 5)];
+                            c.counter_after_input = after;
+                            c.sample_count = Some(n);
+                            c.sample_size = s;
+                            c.test = test;
+                            c.horizon = 4000;
+                            index += 1;
+                            if cli.mine(index) {
+                                check(r, prop, &c, index);
+                            }
+                        }
+                    }
+                }
+            }
+        }
+    }
     r.set_bounds(json!({
         "entries": 6, "input_shapes": 4, "output_shapes": 4, "sample_size": sizes, "sample_count": counts,
         "modes": ["explicit","tuned(0,1,2 doublings)","test"], "local_thread_counts": [1,2,3],
